@@ -1,6 +1,6 @@
 (* C01 -- render() is total (partial: see MANIFEST level text).  Property theorems only. *)
 From Rimu Require Import Base Regex RegexParse Str Types Tables Guards State Inline Block
-  Frame FrameBlock FrameInst OptionsLemmas MiscLemmas Rel RelBlock RelApi PlainDoc Unicode RegexAnalysis MoreLemmas Plain Lines TableFacts.
+  Frame FrameBlock FrameInst OptionsLemmas MiscLemmas Rel RelBlock RelApi PlainDoc Unicode RegexAnalysis MoreLemmas Plain Lines TableFacts RegexSem MatchLemmas Placeholder Taint.
 
 (* option handling never fails, whatever the option values *)
 Theorem C01_update_total : forall o s, exists s', updateFrom o s = Ok (tt, s').
@@ -52,6 +52,19 @@ Theorem C01_plain_total : forall n l s,
   doc_render (S (S (S (S (S n))))) l s = Ok ($"<p>" ++ escape l ++ $"</p>", s).
 Proof. exact plain_line_document. Qed.
 Print Assumptions C01_plain_total.
+
+(* the placeholder bookkeeping of the inline renderer cannot underflow: for text free of U+0000..U+0002 (what the reader
+   delivers) in an environment whose definitions and replacement option are free of them, spans.render never pops from an
+   empty save list -- for every fuel, text and environment (the known finding is exactly the excluded case: an
+   htmlReplacement option that itself contains a reserved code point) *)
+Theorem C01_inline_no_underflow : forall s n src, env_ok s -> rfree src -> spans_render n s src <> Raise ExPopEmpty.
+Proof. exact inline_no_underflow. Qed.
+Print Assumptions C01_inline_no_underflow.
+
+(* ... and every session reachable through the API with such option values has such an environment *)
+Theorem C01_reachable_env_ok : forall n h, Forall (fun so => opts_ok (snd so)) h -> env_ok (ienv_of (snd (run n S0 h))).
+Proof. exact reachable_env_ok. Qed.
+Print Assumptions C01_reachable_env_ok.
 
 Example C01_ex :
   match api_render 40 $"Hello *world*" (mkOpts (PyStr $"junk") (PyInt 5) (PyStr $"maybe") true) S0 with
